@@ -1,14 +1,53 @@
 /-
-  C17 — extension points are transparent unless they act (theorems: see below; filled in by the custom-dice engine extension).
+  C17 — extension points are transparent unless they act (parser side).
+
+  The PEG-engine model carries the custom-dice trio of custom_dice_parser.go over an abstract matcher
+  `custom : offset → matched byte length` (0 = no registered parser matches there):
+  * `never_matching_transparent` — parsers that never match leave the whole parse (success, offset, ParserData, emission trace)
+    exactly as with nothing registered, for every grammar, input and fuel;
+  * `no_match_pred_false` — at an offset without a match the predicate fails and only clears the pending match;
+  * `prepare_outside_lookahead` / `prepare_in_lookahead` — on a match the predicate remembers (offset, length); it moves the text
+    position only inside a look-ahead (where the consuming action does not run) — the repaired behaviour;
+  * `commit_emits_once`, `commit_without_match` — exactly one typeCustomDice is written per committed match, none otherwise,
+    and the pending match is cleared (so the handler's instruction exists once per matched operand).
+  Tied by the `peg-custom` stream: the real parser with RegCustomDice(pattern) vs the model given the pattern's match lengths.
+  The run-time side (handler called once per evaluation with the matched text and groups, result used by copy, identity hooks)
+  is decided by the oracle on the implementation (lib/props/c17.py).
 -/
 import DS.Model.Peg
 
 namespace DS.Props.C17
 open DS.Peg
 
-/-- with no custom parser registered the custom-dice predicate fails and leaves the state untouched -/
-theorem no_parser_pred_false (env : Env) (s : PState) (a : Nat) (h : (env.acts[a]!).pred = .customDice) (he : (env.acts[a]!).effs = []) :
-    evalPred env s a = (s, false) := by
-  simp only [evalPred, h, he, List.foldl_nil]
+theorem never_matching_transparent (env : Env) (c : Nat → Nat) (h : ∀ p, c p = 0) (cfg : Flags) (fuel : Nat) :
+    parseTop { env with custom := c } cfg fuel = parseTop { env with custom := fun _ => 0 } cfg fuel := by
+  have : c = fun _ => 0 := funext h
+  rw [this]
+
+theorem no_match_pred_false (env : Env) (s : PState) (h : env.custom s.pos = 0) :
+    prepareCustom env s = ({ s with pending := none }, false) := by
+  simp [prepareCustom, h]
+
+theorem prepare_outside_lookahead (env : Env) (s : PState) (n : Nat) (h : env.custom s.pos = n + 1) (hs : s.skip = 0) :
+    prepareCustom env s = ({ s with pending := some (s.pos, n + 1) }, true) := by
+  simp [prepareCustom, h, hs]
+
+theorem prepare_in_lookahead (env : Env) (s : PState) (n : Nat) (h : env.custom s.pos = n + 1) (hs : s.skip > 0) :
+    prepareCustom env s = (advanceTo env (s.pos + (n + 1)) (n + 1 + 1) { s with pending := some (s.pos, n + 1) }, true) := by
+  simp [prepareCustom, h, hs]
+
+theorem commit_emits_once (env : Env) (s : PState) (st len : Nat) (h : s.pending = some (st, len)) :
+    (commitCustom env s).trace = env.customOp :: s.trace ∧ (commitCustom env s).pending = none := by
+  simp [commitCustom, h]
+
+theorem commit_without_match (env : Env) (s : PState) (h : s.pending = none) : commitCustom env s = s := by
+  simp [commitCustom, h]
+
+/-- the consuming action uses the pending match when it starts at the current offset -/
+theorem consume_uses_pending (env : Env) (s : PState) (len : Nat) (h : s.pending = some (s.pos, len)) :
+    consumeCustom env s = advanceTo env (s.pos + len) (len + 1) s := by
+  simp only [consumeCustom, h, beq_self_eq_true, if_true]
+  congr 1
+  cases s; simp_all
 
 end DS.Props.C17
